@@ -74,7 +74,7 @@ def impl_joint_rho(net, oid_of, order):
     where = {}
     for node in net.nodes:
         for q in node.virtQubits:
-            sq = q.simQubit
+            sq = N.resolve(net, q.simQubit)
             where[(id(sq.register), sq.num)] = oid_of[net.hid[id(q)]]
     rho = np.eye(d, dtype=complex)
     for node in net.nodes:
@@ -99,11 +99,16 @@ def impl_joint_rho(net, oid_of, order):
 # running one program
 # ------------------------------------------------------------------------------------------------
 class Runner:
-    def __init__(self, env, rng, n_nodes, caps, max_live=7, oracle_every=1):
+    def __init__(self, env, rng, n_nodes, caps, max_live=7, oracle_every=1, pb=False):
         self.env, self.rng = env, rng
         self.names = ["N%d" % i for i in range(n_nodes)]
         self.caps = caps
-        self.net = N.make_network(env, self.names, [c[0] for c in caps], [c[1] for c in caps])
+        self.pb = pb
+        if pb:
+            import net_pb
+            self.net = net_pb.make_pb_network(env, self.names, [c[0] for c in caps], [c[1] for c in caps])
+        else:
+            self.net = N.make_network(env, self.names, [c[0] for c in caps], [c[1] for c in caps])
         self.ideal = Ideal()
         self.oid_of = {}           # hid -> oid
         self.next_oid = 0
@@ -131,7 +136,7 @@ class Runner:
         vi = N.node_index(self.net, q1.virtNode)
         s1, s2 = N.node_index(self.net, q1.simNode), N.node_index(self.net, q2.simNode)
         if s1 == s2:
-            same = q1.simQubit.register is q2.simQubit.register
+            same = N.resolve(self.net, q1.simQubit).register is N.resolve(self.net, q2.simQubit).register
             if s1 == vi:
                 return 1 if same else 2
             return 3 if same else 4
@@ -174,7 +179,13 @@ class Runner:
             d = q.remote_measure(inplace=op[2])
         else:
             raise ValueError(op)
-        status, val = N.fire(d)
+        if self.pb:
+            import net_pb
+            box = net_pb.Box(d)
+            net_pb.settle(net)
+            status, val = box.status, box.value
+        else:
+            status, val = N.fire(d)
         self.env.coins[:] = []
         new_handles = N.tag_new_handles(net)
         self.all_hids.extend(new_handles)
@@ -237,9 +248,11 @@ class Runner:
         # ---- C05: refusals are atomic and typed
         if status == "err":
             if type(val).__name__ not in KIND:
-                prop = "C05" if kind in ("send",) and False else "C01"
-                P.append({"prop": prop, "what": "operation failed with undocumented %s: %s" % (type(val).__name__, val), "step": step,
-                          "exc": type(val).__name__})
+                # an undocumented exception class is both a wrong error type (C05) and, when the operation should have
+                # succeeded, a deviation from the ideal register (C01)
+                for prop in ("C01", "C05"):
+                    P.append({"prop": prop, "what": "operation failed with undocumented %s: %s" % (type(val).__name__, val), "step": step,
+                              "exc": type(val).__name__})
             if before != after:
                 P.append({"prop": "C05", "what": "refused operation (%s) changed the bookkeeping" % type(val).__name__, "step": step})
         # ---- C06: stale handles are inert
@@ -322,14 +335,14 @@ class Runner:
 # ------------------------------------------------------------------------------------------------
 # generators
 # ------------------------------------------------------------------------------------------------
-def random_program(env, rng, n_ops, profile="mixed", n_nodes=None, caps=None):
+def random_program(env, rng, n_ops, profile="mixed", n_nodes=None, caps=None, pb=False):
     n_nodes = n_nodes or rng.choice([1, 2, 3, 3, 4])
     if caps is None:
         if profile == "capacity":
             caps = [(rng.randrange(1, 6), rng.randrange(1, 9)) for _ in range(n_nodes)]
         else:
             caps = [(rng.choice([3, 4, 5, 6]), rng.choice([4, 6, 8, 10])) for _ in range(n_nodes)]
-    r = Runner(env, rng, n_nodes, caps)
+    r = Runner(env, rng, n_nodes, caps, pb=pb)
     w = {"mixed": dict(new=4, g1=4, g2=6, send=4, meas=2, stale=1, bad=1),
          "merge": dict(new=3, g1=3, g2=8, send=6, meas=1, stale=0, bad=0),
          "capacity": dict(new=6, g1=1, g2=2, send=5, meas=3, stale=0, bad=1),
@@ -505,10 +518,10 @@ def symbolic(r, upto=None):
     return sym
 
 
-def replay(env, caps, sym, rng=None):
+def replay(env, caps, sym, rng=None, pb=False):
     """run a symbolic program; ops whose handles do not exist (creator removed or refused) are skipped"""
     import random as _r
-    r = Runner(env, rng or _r.Random(0), len(caps), caps)
+    r = Runner(env, rng or _r.Random(0), len(caps), caps, pb=pb)
     made = {}
     for i, op in enumerate(sym):
         o = list(op)
@@ -529,7 +542,7 @@ def replay(env, caps, sym, rng=None):
     return r
 
 
-def shrink(env, caps, sym, pred, budget=150):
+def shrink(env, caps, sym, pred, budget=150, pb=False):
     """greedy delta debugging: drop operations while pred(replayed runner) stays true"""
     cur = list(sym)
     changed = True
@@ -544,7 +557,7 @@ def shrink(env, caps, sym, pred, budget=150):
                               if not any(o[f] == i for f in HANDLE_FIELDS[o[0]])]
             budget -= 1
             try:
-                r = replay(env, caps, cand)
+                r = replay(env, caps, cand, pb=pb)
             except Exception:
                 continue
             if pred(r):
